@@ -1,12 +1,43 @@
-(* C15 — bkld round trip. Statements are extended as the proofs land (DESIGN.md section 6). *)
+(* C15 — bkld round trip: base + bkld(base, target) evaluates to target.
+   Statements only; proofs in Proofs/ToolsProofs.v.
+   [dfree v]: the property's domain — null-free, $-free trees with strictly sorted maps.
+   [diff t b]: cmd/bkld/diff.go on (target, base), VNull = "no difference"; [merge' b d]: bkl layering d over b. *)
 From Coq Require Import String Ascii List ZArith.
-From Bkl Require Import Model.Value Model.Merge Model.Tools.
+From Bkl Require Import Model.Value Model.Merge Model.Tools Proofs.MapsProofs Proofs.ToolsProofs.
 Import ListNotations.
 Local Open Scope string_scope.
 Local Open Scope list_scope.
 
-(* a changed scalar is emitted as the new value, an unchanged one as nothing *)
-Theorem C15_scalar : forall d s, match d with VMap _ | VList _ => False | _ => True end ->
-  diff d s = if scalar_eqb d s then VNull else d.
-Proof. intros d s H. destruct d; try contradiction; reflexivity. Qed.
-Print Assumptions C15_scalar.
+(* For any base and any target (maps): the emitted layer, layered over the base, yields exactly the target and is
+   accepted; it is empty only if target = base. No restriction on the kind of edit: keys added/removed/changed
+   at any depth, list entries added/removed/reordered/duplicated, kind changes in either direction. *)
+Theorem C15_roundtrip : forall tm bm, dfree (VMap tm) -> dfree (VMap bm) ->
+  (diff (VMap tm) (VMap bm) = VNull -> VMap tm = VMap bm) /\
+  (diff (VMap tm) (VMap bm) <> VNull -> merge' (VMap bm) (diff (VMap tm) (VMap bm)) = Ok (VMap tm)).
+Proof. intros tm bm Ht Hb. exact (diff_roundtrip (VMap tm) (VMap bm) Ht Hb eq_refl). Qed.
+Print Assumptions C15_roundtrip.
+
+(* the same at every nesting level, for values of any kind that can be patched in place *)
+Theorem C15_roundtrip_nested : forall t b, dfree t -> dfree b -> patchable t b = true -> roundtrip_ok t b.
+Proof. exact diff_roundtrip. Qed.
+Print Assumptions C15_roundtrip_nested.
+
+(* when base and target are the same data the emitted layer is empty (and merging nothing changes nothing) *)
+Theorem C15_same_empty : forall t, dfree t -> diff t t = VNull.
+Proof. exact diff_same_empty. Qed.
+Print Assumptions C15_same_empty.
+
+(* the document-level $match: {} that bkld adds selects the base document *)
+Theorem C15_targets_base : forall bm, single_placeholder bm = false -> vmatch (VMap bm) (VMap []) = true.
+Proof. exact match_empty_pattern. Qed.
+Print Assumptions C15_targets_base.
+
+(* non-vacuity: reordering (the pinned tree emitted an empty diff here) and a kind change *)
+Example C15_reorder :
+  let b := VMap [("l", VList [VInt 1; VInt 2])] in let t := VMap [("l", VList [VInt 2; VInt 1])] in
+  dfree t /\ dfree b /\ merge' b (diff t b) = Ok t.
+Proof. cbn. repeat split; repeat constructor. Qed.
+Example C15_kind_change :
+  let b := VMap [("m", VMap [("a", VInt 1)])] in let t := VMap [("m", VInt 5)] in
+  dfree t /\ dfree b /\ merge' b (diff t b) = Ok t.
+Proof. cbn. repeat split; repeat constructor. Qed.
